@@ -28,11 +28,14 @@ var c07Aggregates = map[string]bool{"exists": true, "empty": true, "count": true
 
 // arguments that require a single value (position -> true), per function
 var c07SingleArg = map[string][]bool{
-	"skip": {true}, "take": {true}, "indexOf": {true}, "substring": {true, false}, "startsWith": {true}, "endsWith": {true}, "contains": {true},
+	"skip": {true}, "take": {true}, "indexOf": {true}, "substring": {true, true}, "startsWith": {true}, "endsWith": {true}, "contains": {true},
 	"replace": {true, true}, "matches": {true}, "replaceMatches": {true, true}, "log": {true}, "power": {true},
-	"extension": {true},
-	// optional parameters (substring length, round precision, toQuantity/convertsToQuantity unit, join separator)
-	// are not "required": only totality is checked for them.
+	"extension": {true}, "round": {true}, "toQuantity": {true}, "join": {true},
+	// optional parameters (substring length, round precision, toQuantity unit, join separator): once the
+	// argument is supplied it has to be a single value, so a supplied-but-empty argument must give empty or
+	// an error, not the result of the call without the argument (seeded change C07/m2 showed the gap).
+	// convertsToQuantity({}) = false is left to totality: "cannot be converted to an unknown unit" is a
+	// defensible answer and not a fabricated conversion result.
 }
 
 func c07Env() map[string]any { return map[string]any{"e": system.Collection{}} }
